@@ -1,20 +1,159 @@
-"""Counterexample replay against the REAL library (real jansson / OpenSSL / GnuTLS, ASan+UBSan).
+"""Counterexample replay.
 
-Best effort per harness family: the solver's verdict over the real translation units is what
-decides; a native reproduction is attached to the replay file when a driver exists."""
+Every violation gets a replay file with the solver's counterexample (harness-level inputs).  For
+the harness families below the counterexample is additionally turned into an ordinary run of the
+REAL code (real sources from /repo's working tree, real jansson/OpenSSL/GnuTLS, ASan+UBSan) and the
+outcome is attached as `native_replay`:
+    codec.c        -> replay/codec_replay.c   (jwt_base64uri_encode/decode vs. an independent reference)
+    tool_verify.c  -> the real jwt-verify tool built from the tree (exit status / option handling)
+For the other families the replay file holds the counterexample only (DESIGN.md section 6)."""
 import json
 import os
+import re
+import shutil
 import subprocess
-import sys
+import tempfile
 
-from .build import VERIF, REPO
+from .build import VERIF, REPO, LIB_UNITS
+
+
+def _val(inp):
+    """integer value of a CBMC trace value"""
+    b = inp.get('binary')
+    if b and re.fullmatch(r'[01]+', b):
+        v = int(b, 2)
+        return v
+    d = inp.get('value')
+    if isinstance(d, str):
+        m = re.fullmatch(r"'(.)'", d)
+        if m:
+            return ord(m.group(1))
+        try:
+            return int(d.rstrip('ul'), 0)
+        except ValueError:
+            return None
+    return d if isinstance(d, int) else None
+
+
+def _array(rec, name, n):
+    out = [0] * n
+    for i in rec.get('inputs', []):
+        m = re.fullmatch(re.escape(name) + r'\[(\d+)l?\]', i['lhs'] or '')
+        if m and int(m.group(1)) < n:
+            v = _val(i)
+            if v is not None:
+                out[int(m.group(1))] = v & 0xff
+    return out
+
+
+def _scalar(rec, name, default=None):
+    v = default
+    for i in rec.get('inputs', []):
+        if i['lhs'] == name:
+            x = _val(i)
+            if x is not None:
+                v = x
+    return v
+
+
+def _lib_sources():
+    return [os.path.join(REPO, u) for u in LIB_UNITS]
+
+
+def _cc_flags(bld):
+    fl = [f.replace('@GEN@', bld.gen) for f in bld.flags.get('libjwt/jwt.c', [])]
+    return fl + ['-g', '-O1', '-fsanitize=address,undefined', '-fno-omit-frame-pointer', '-w']
+
+
+def replay_codec(pid, q, rec, bld):
+    defs = dict((d.split('=') + ['1'])[:2] for d in q.defines)
+    tmp = tempfile.mkdtemp(prefix='vf-replay-')
+    try:
+        exe = os.path.join(tmp, 'codec_replay')
+        cmd = ['gcc'] + _cc_flags(bld) + [os.path.join(VERIF, 'replay', 'codec_replay.c')] + _lib_sources() + \
+              ['-o', exe, '-ljansson', '-lssl', '-lcrypto', '-lgnutls']
+        r = subprocess.run(cmd, stdout=subprocess.PIPE, stderr=subprocess.STDOUT, text=True)
+        if r.returncode != 0:
+            return {'status': 'error', 'detail': 'native build failed: ' + r.stdout[-600:]}
+        if 'SIDE_DECODE' in defs:
+            m = _scalar(rec, 'm', 0) or 0
+            txt = _array(rec, 'txt', int(defs.get('M', 16)))[:m]
+            arg = ['decode', ''.join('%02x' % b for b in txt)]
+        else:
+            n = _scalar(rec, 'n', 1) or 1
+            data = _array(rec, 'in', int(defs.get('N', 12)))[:n]
+            arg = ['encode', ''.join('%02x' % b for b in data)]
+        rr = subprocess.run([exe] + arg, stdout=subprocess.PIPE, stderr=subprocess.STDOUT, text=True, timeout=60)
+        confirmed = rr.returncode != 0
+        return {'status': 'confirmed' if confirmed else 'not-reproduced', 'command': 'codec_replay ' + ' '.join(arg),
+                'exit': rr.returncode, 'output': rr.stdout[-1500:]}
+    finally:
+        shutil.rmtree(tmp, ignore_errors=True)
+
+
+def replay_tool(pid, q, rec, bld):
+    defs = dict((d.split('=') + ['1'])[:2] for d in q.defines)
+    tmp = tempfile.mkdtemp(prefix='vf-replay-')
+    try:
+        exe = os.path.join(tmp, 'jwt-verify')
+        fl = [f for f in _cc_flags(bld) if not f.startswith('-fsanitize')]
+        cmd = ['gcc'] + fl + [os.path.join(REPO, 'tools/jwt-verify.c')] + _lib_sources() + \
+              ['-o', exe, '-ljansson', '-lssl', '-lcrypto', '-lgnutls']
+        r = subprocess.run(cmd, stdout=subprocess.PIPE, stderr=subprocess.STDOUT, text=True)
+        if r.returncode != 0:
+            return {'status': 'error', 'detail': 'native build failed: ' + r.stdout[-600:]}
+        good = 'eyJhbGciOiJub25lIn0.e30.'       # {"alg":"none"} . {} . (empty): verifies on a keyless checker
+        bad = 'a.b.c'
+        if 'SIDE_EXIT' in defs:
+            n = int(defs.get('NTOK', 2))
+            f = _scalar(rec, 'failures', n)
+            f = n if f is None else min(f, n)
+            toks = [bad] * f + [good] * (n - f)
+            argv = [exe] + (['-q'] if 'QUIET' in defs else [])
+            if 'STDIN' in defs:
+                rr = subprocess.run(argv + ['-'], input='\n'.join(toks) + '\n', stdout=subprocess.PIPE, stderr=subprocess.STDOUT, text=True)
+            else:
+                rr = subprocess.run(argv + toks, stdout=subprocess.PIPE, stderr=subprocess.STDOUT, text=True)
+            confirmed = (rr.returncode == 0) != (f == 0)
+            return {'status': 'confirmed' if confirmed else 'not-reproduced',
+                    'command': '%s %d tokens (%d failing)' % (' '.join(os.path.basename(a) for a in argv), n, f),
+                    'exit_status': rr.returncode, 'expected': 'exit 0 iff no token failed'}
+        # option spelling
+        hdr = os.path.join(bld.gen, 'c20_verify_opts.h')
+        opts = re.findall(r"\{ '(.)', \"([^\"]+)\", (\d) \}", open(hdr).read())
+        sc, ln, ha = opts[int(defs.get('WHICH', 0))]
+        sp = int(defs.get('SPELLING', 0))
+        keyfile = os.path.join(REPO, 'tests/keys/ec_key_prime256v1_pub_noalg.json')
+        if not os.path.exists(keyfile):
+            keyfile = os.path.join(REPO, 'tests/keys/ec_key_prime256v1_pub.json')
+        arg = {'a': 'ES256', 'k': keyfile}.get(sc, 'cat')
+        words = []
+        if sc != 'k':
+            words += ['-k', keyfile]
+        if sp == 0:
+            words.append('-' + sc + (arg if ha == '1' else ''))
+        elif sp == 1:
+            words += ['-' + sc, arg]
+        elif sp == 2:
+            words.append('--' + ln + (('=' + arg) if ha == '1' else ''))
+        else:
+            words += ['--' + ln, arg]
+        rr = subprocess.run([exe] + words + [bad], stdout=subprocess.PIPE, stderr=subprocess.STDOUT, text=True)
+        refused = bool(re.search(r'Unknown (option|algorithm)|ERROR:', rr.stdout))
+        return {'status': 'confirmed' if refused else 'not-reproduced', 'command': 'jwt-verify ' + ' '.join(words) + ' ' + bad,
+                'exit_status': rr.returncode, 'output': rr.stdout[-400:]}
+    finally:
+        shutil.rmtree(tmp, ignore_errors=True)
+
+
+DRIVERS = {'codec.c': replay_codec, 'tool_verify.c': replay_tool}
 
 
 def native_replay(pid, q, rec, bld):
-    drv = getattr(q, 'replay_driver', None)
+    drv = DRIVERS.get(q.harness)
     if not drv:
         return {'status': 'none', 'detail': 'no native driver for this harness family; the replay file holds the '
-                                            'solver counterexample (inputs of the harness) for the real units'}
+                                            'solver counterexample (harness-level inputs) for the real units'}
     return drv(pid, q, rec, bld)
 
 
